@@ -423,7 +423,18 @@ pub fn gen_scenario(rng: &mut Rng, thorough: bool) -> Scenario {
     let nsteps = rng.range(2, 6) as usize;
     let mut steps: Vec<Step> = Vec::new();
     let mut pointer = 0usize;
+    // Sometimes the server is restored from a backup in mid-scenario: same
+    // sessions and serials, other content from some version on.
+    let (history2, fork_at) = if history.len() >= 2 && nsteps >= 3 && rng.chance(1, 5) {
+        let from = rng.range(1, history.len() as u64 - 1) as usize;
+        (Some(fork_history(rng, &history, from)), rng.range(1, nsteps as u64 - 1) as usize)
+    } else { (None, 0) };
+    let original = history.clone();
     for s in 0..nsteps {
+        let history: &Vec<Version> = match &history2 {
+            Some(h2) if s >= fork_at => h2,
+            _ => &original,
+        };
         if s > 0 && pointer > 0 && rng.chance(1, 6) {
             // The server (or a lagging cache node) goes backwards.
             pointer -= rng.range(1, pointer.min(3) as u64) as usize;
@@ -434,18 +445,92 @@ pub fn gen_scenario(rng: &mut Rng, thorough: bool) -> Scenario {
         }
         let adv = *rng.pick(&[1i64, 5, 60, 599, 600, 601, 1199, 1200, 1201, 3599, 3600, 3601, 10_000]);
         let list = rng.range(0, max_delta_list_len as u64) as usize;
-        let mut step = genuine_step(&history, pointer, list, adv);
+        let mut step = genuine_step(history, pointer, list, adv);
+        if history2.is_some() && s >= fork_at { step.notify.etag = step.notify.etag.map(|e| e + 500); step.faults.push("Restored".into()); }
         let nfaults = match rng.below(20) {
             0..=6 => 0, 7..=15 => 1, 16..=18 => 2, _ => if thorough { 3 } else { 2 },
         };
         for _ in 0..nfaults {
             let fault = random_fault(&step, rng);
             let prev = steps.last().cloned();
-            apply_fault(&mut step, &fault, &history, prev.as_ref(), rng);
+            apply_fault(&mut step, &fault, history, prev.as_ref(), rng);
         }
         steps.push(step);
     }
-    Scenario { max_delta_count, max_delta_list_len, history, steps }
+    let history = original;
+    Scenario { max_delta_count, max_delta_list_len, history, steps, history2, fork_at }
+}
+
+/// A restored copy of a history: versions from index `from` on keep their
+/// session and serial but get other content (and so other delta files).
+pub fn fork_history(rng: &mut Rng, history: &[Version], from: usize) -> Vec<Version> {
+    let mut res: Vec<Version> = history[..from].to_vec();
+    let mut next_content = 200u64;
+    for v in &history[from..] {
+        let mut objs = res.last().filter(|p| p.session == v.session)
+            .map(|p| p.objs.clone()).unwrap_or_else(|| v.objs.clone());
+        let changes = rng.range(1, 2);
+        for _ in 0..changes {
+            let u = rng.below(UNIVERSE);
+            if objs.contains_key(&u) && rng.chance(1, 3) { objs.remove(&u); }
+            else { objs.insert(u, next_content); next_content += 1; }
+        }
+        res.push(Version { session: v.session, serial: v.serial, objs });
+    }
+    res
+}
+
+/// The base history after a restore: serials 3 and 4 as before, 5 to 7 with
+/// other content; delta 6' and 7' apply cleanly to the original serial 5.
+pub fn restored_base_history() -> Vec<Version> {
+    let v = |session, serial, objs: &[(u64, u64)]| Version {
+        session, serial, objs: objs.iter().cloned().collect()
+    };
+    vec![
+        v(0, 3, &[(0, 10), (1, 11), (2, 12)]),
+        v(0, 4, &[(0, 10), (1, 11), (2, 13), (3, 14)]),
+        v(0, 5, &[(0, 10), (1, 11), (2, 31), (3, 14)]),
+        v(0, 6, &[(0, 10), (1, 11), (2, 31)]),
+        v(0, 7, &[(0, 10), (1, 11), (2, 31), (3, 32)]),
+    ]
+}
+
+/// The restored server: the client is at serial 5 remembering the hashes of
+/// the last 1 or 2 deltas; the restored server re-issues delta 5 with another
+/// hash and lists 2 to 5 deltas (so the list may begin below every serial
+/// the client remembers), at serial 5 (unchanged), 6 or 7.
+pub fn enumerate_restore() -> Vec<Scenario> {
+    // Two earlier versions in front so that the lists can reach far down.
+    let v = |serial, objs: &[(u64, u64)]| Version {
+        session: 0, serial, objs: objs.iter().cloned().collect()
+    };
+    let early = vec![v(1, &[(0, 10)]), v(2, &[(0, 10), (1, 11)])];
+    let history: Vec<Version> = early.iter().cloned().chain(base_history()).collect();
+    let restored: Vec<Version> = early.iter().cloned().chain(restored_base_history()).collect();
+    let mut res = Vec::new();
+    for first_list in [1usize, 2] {
+        for target in [4usize, 5, 6] {
+            for list in [1usize, 2, 3, 4, 6] {
+                for validators in [true, false] {
+                    if !validators && list % 2 == 0 { continue }
+                    let s1 = genuine_step(&history, 2, 5, 1);
+                    let s2 = genuine_step(&history, 4, first_list, 60);
+                    let mut s3 = genuine_step(&restored, target, list, 60);
+                    s3.notify.etag = Some(600 + target as u64);
+                    s3.notify.lm = s3.notify.lm.map(|t| t + 7);
+                    if !validators { s3.notify.etag = None; s3.notify.lm = None; }
+                    s3.faults.push(format!("Restored+{}", list as i64 - first_list as i64));
+                    let s4 = genuine_step(&restored, 6, 5, 60);
+                    res.push(Scenario {
+                        max_delta_count: 3, max_delta_list_len: 6,
+                        history: history.clone(), steps: vec![s1, s2, s3, s4],
+                        history2: Some(restored.clone()), fork_at: 2,
+                    });
+                }
+            }
+        }
+    }
+    res
 }
 
 /// The fixed history used for the exhaustive (step, fault) enumeration:
@@ -481,6 +566,7 @@ pub fn enumerate_single(rng: &mut Rng) -> Vec<Scenario> {
             res.push(Scenario {
                 max_delta_count: 3, max_delta_list_len: 6,
                 history: history.clone(), steps: vec![s1, s2, s3, s4],
+                history2: None, fork_at: 0,
             });
         }
     }
@@ -493,6 +579,7 @@ pub fn enumerate_single(rng: &mut Rng) -> Vec<Scenario> {
         res.push(Scenario {
             max_delta_count: 3, max_delta_list_len: 6,
             history: history.clone(), steps: vec![s1, s2],
+            history2: None, fork_at: 0,
         });
     }
     res
@@ -539,6 +626,7 @@ pub fn enumerate_rollback(rng: &mut Rng) -> Vec<Scenario> {
                     res.push(Scenario {
                         max_delta_count: 3, max_delta_list_len: 6,
                         history: history.clone(), steps: vec![s1, s2, s3, s4],
+                        history2: None, fork_at: 0,
                     });
                 }
             }
@@ -557,6 +645,7 @@ pub fn enumerate_rollback(rng: &mut Rng) -> Vec<Scenario> {
             res.push(Scenario {
                 max_delta_count: 3, max_delta_list_len: 6,
                 history: sess.clone(), steps: vec![s1, s2, s3, s4],
+                history2: None, fork_at: 0,
             });
         }
     }
@@ -571,6 +660,7 @@ pub fn enumerate_rollback(rng: &mut Rng) -> Vec<Scenario> {
         res.push(Scenario {
             max_delta_count: 3, max_delta_list_len: 6,
             history: history.clone(), steps: vec![s1, s2, s3, s4],
+            history2: None, fork_at: 0,
         });
     }
     res
@@ -600,6 +690,7 @@ pub fn enumerate_unchanged(rng: &mut Rng) -> Vec<Scenario> {
             res.push(Scenario {
                 max_delta_count: 3, max_delta_list_len: 6,
                 history: history.clone(), steps: vec![s1, s2, s3, s4],
+                history2: None, fork_at: 0,
             });
         }
     }
@@ -636,6 +727,7 @@ pub fn enumerate_pairs(rng: &mut Rng, all: bool) -> Vec<Scenario> {
             res.push(Scenario {
                 max_delta_count: 3, max_delta_list_len: 6,
                 history: history.clone(), steps: vec![s1, s2, s3, s4],
+                history2: None, fork_at: 0,
             });
         }
     }
